@@ -41,6 +41,7 @@ func runC13(r *hk.Run) {
 	r.Rule = "line cases: streams of lines whose lengths straddle the bufio size (n-2..n+2, CR at the edge, bare LF, no final newline) x buffer sizes {16,17,32,64,4096} x readLine variant; non-trivial = some line is longer than the buffer or the stream does not end in a newline. Exchange pairs (dump off / dump on): protocol x option subsets x writer routing x sync/async x healthy / failing dump writers x level x exchange shape (body framing and size, long / many headers, small read buffers, gzip, charset, 1xx, redirects, retries, truncated bodies); non-trivial = at least one part is on and the exchange has a body or a header line longer than the read buffer or more than one round trip. Distinct by canonical input."
 	rng := hk.NewRand(r.Seed)
 	lineCases(r, rng, r.Scale(350, 6000))
+	stopSchedCases(r, rng, r.Scale(24, 200))
 	h1Pairs(r, rng, r.Scale(300, 3000))
 	h2Pairs(r, rng, r.Scale(130, 1200))
 	h3Pairs(r, rng, r.Scale(100, 800))
